@@ -45,7 +45,11 @@ type handler interface {
 func afterLoadBinary(k *manifest, srcKey string) error {
 	if data, ok := k.doc[srcKey].(map[string]interface{}); ok {
 		for dk, dv := range data {
-			if ed, err := base64.StdEncoding.DecodeString(dv.(string)); err != nil {
+			ds, isStr := dv.(string)
+			if !isStr {
+				return fmt.Errorf("binary data item '%s' is not a string", dk)
+			}
+			if ed, err := base64.StdEncoding.DecodeString(ds); err != nil {
 				return err
 			} else {
 				k.binData[dk] = ed
@@ -223,11 +227,15 @@ func ManifestFromBytes(data []byte) (Manifest, error) {
 	}
 	var tk, bk string
 
-	if kind, ok := doc["kind"]; ok {
-		if kind.(string) == "Secret" {
+	if k, ok := doc["kind"]; ok {
+		kind, isStr := k.(string)
+		if !isStr {
+			return nil, fmt.Errorf("unsupported manifest kind: %v", k)
+		}
+		if kind == "Secret" {
 			bk = keyData
 			tk = keyStringData
-		} else if kind.(string) == "ConfigMap" {
+		} else if kind == "ConfigMap" {
 			bk = keyBinaryData
 			tk = keyData
 		} else {
